@@ -438,6 +438,8 @@ def judge(case, events, states):
     first_seen_step = {}  # observation key (tuple) -> step of the first observation
     reobserved = []       # (key, step)
     own_written = {}      # key -> step of the session's own last assignment
+    pinned_p = {}         # child pk -> (step, parent pk or None): the session has seen (read) the child's reference
+    kids_seen = {}        # parent pk -> (step, set of child pks): the session has iterated the parent's collection
     reader_fail = None
 
     def fail(tag, msg):
@@ -476,6 +478,31 @@ def judge(case, events, states):
                 first_attr[(key[1], key[2], key[3])] = (ev['step'], val)
         for key, val in ev['value']['obs']:
             tkey = tuple(key)
+            # ---- both ends of the one-to-many relationship, as shown to this session, must agree
+            if key[0] == 'a' and key[1] == 'K' and key[3] == 'p':
+                for ppk, (cstep, items) in sorted(kids_seen.items()):
+                    if (key[2] in items) != (val == ppk):
+                        fail('relationship-ends-disagree', 'K[%d].p reads %r in step #%d, but iterating P[%d].kids in step #%d gave %s'
+                             % (key[2], val, ev['step'], ppk, cstep, sorted(items)))
+                pinned_p.setdefault(key[2], (ev['step'], val))
+            elif key[0] in ('set', 'in') and (key[1], key[3]) == ('P', 'kids'):
+                ppk = key[2]
+                for kpk, (pstep, par) in sorted(pinned_p.items()):
+                    if key[0] == 'in' and key[4] != kpk:
+                        continue
+                    shown = (kpk in val) if key[0] == 'set' else bool(val)
+                    if shown != (par == ppk):
+                        if par == ppk and kpk not in ev['after']['K']:
+                            continue        # the child row was deleted meanwhile: the cached child is stale, not contradictory
+                        fail('relationship-ends-disagree', 'K[%d].p read %r in step #%d, but %s in step #%d'
+                             % (kpk, par, pstep, ('iterating P[%d].kids gives %s' % (ppk, val)) if key[0] == 'set'
+                                else ('(K[%d] in P[%d].kids) is %r' % (kpk, ppk, val)), ev['step']))
+                if key[0] == 'set':
+                    kids_seen.setdefault(ppk, (ev['step'], set(val)))
+                    for kpk in val:
+                        pinned_p.setdefault(kpk, (ev['step'], ppk))      # iteration reads the children's reference
+                elif val:
+                    pinned_p.setdefault(key[4], (ev['step'], ppk))
             if tkey in first_seen_step:
                 reobserved.append((tkey, ev['step']))
             first_seen_step.setdefault(tkey, ev['step'])
